@@ -43,3 +43,20 @@ Lemma quiet_round :
   let s := run cf w_s0 [Judge kF; Judge kR; Judge kN; Drain kR; Clean kF; Clean kR; Clean kN] in
   ct s = [].
 Proof. intros cf [-> | ->]; vm_compute; reflexivity. Qed.
+
+(* two forward entries for one reverse entry: the one that loses the pairing record survives the first round (its
+   reverse entry is deleted with the other forward entry) and is removed, as a forward entry without reverse entry,
+   by the second *)
+Definition kF2 : key := (17%N, 4%N).
+Definition w_shared : list (key * entry) :=
+  [ (kR, mkE KRev (100 * sec) dummy false false est est);
+    (kF, mkE KFwd (90 * sec) kR false false (mkLeg false false false false) (mkLeg false false false false));
+    (kF2, mkE KFwd (95 * sec) kR false false (mkLeg false false false false) (mkLeg false false false false)) ].
+Definition w_round (cf : conf) (order : list key) (s : state) : state :=
+  clean_all cf (drain_all cf (run cf s (map Judge order))).
+
+Lemma shared_reverse_two_rounds : forall cf, cf = pinned \/ cf = repaired ->
+  let s1 := w_round cf [kF; kF2; kR] (init w_shared (5000 * sec) 0) in
+  let s2 := w_round cf [kF2; kF] s1 in
+  map fst (ct s1) = [kF; kF2] /\ ct s2 = [].
+Proof. intros cf [-> | ->]; vm_compute; split; reflexivity. Qed.
